@@ -325,6 +325,7 @@ def converted_call(f, args, kwargs, caller_fn_scope=None, options=None):
   if not options.internal_convert_user_code:
     return _call_unconverted(f, args, kwargs, options)
 
+  conversion_error = None
   try:
     if inspect.ismethod(f) or inspect.isfunction(f):
       target_entity = f
@@ -361,7 +362,14 @@ def converted_call(f, args, kwargs, caller_fn_scope=None, options=None):
     logging.log(1, 'Error transforming entity %s', target_entity, exc_info=True)
     if is_autograph_strict_conversion_mode():
       raise
-    return _fall_back_unconverted(f, args, kwargs, options, e)
+    conversion_error = e
+  if conversion_error is not None:
+    # Outside the handler: the target must not run with the conversion error
+    # as the exception being handled (sys.exc_info(), __context__, bare raise).
+    try:
+      return _fall_back_unconverted(f, args, kwargs, options, conversion_error)
+    finally:
+      conversion_error = None  # Like `except ... as e`: no traceback cycle.
 
   if not hasattr(target_entity, '__code__'):
     logging.log(2, 'Permanently allowed: %s: native binding', target_entity)
@@ -382,7 +390,12 @@ def converted_call(f, args, kwargs, caller_fn_scope=None, options=None):
     logging.log(1, 'Error transforming entity %s', target_entity, exc_info=True)
     if is_autograph_strict_conversion_mode():
       raise
-    return _fall_back_unconverted(f, args, kwargs, options, e)
+    conversion_error = e
+  if conversion_error is not None:
+    try:
+      return _fall_back_unconverted(f, args, kwargs, options, conversion_error)
+    finally:
+      conversion_error = None
 
   # (dime10) strip stack trace mapper & filter which rely on compiled TF cpp code
   try:
